@@ -76,7 +76,7 @@ def sample_behaviour(path, maxsteps=12):
 
 
 def run_core(ctx, prop, need_stats=(), need_shapes=(), sim_cfg="SIM_core", mc_quick="MC_core_quick", mc_thorough="MC_core_mid",
-             invariants_note="", extra_rule="", harness_flags=(), sim_cfgs=None, scale=1.0, level="model_checking"):
+             invariants_note="", extra_rule="", harness_flags=(), sim_cfgs=None, scale=1.0, level="model_checking", driver=None):
     tier, seed = ctx["tier"], ctx["seed"]
     wd = vlib.workdir(prop)
     violations = []
@@ -114,6 +114,40 @@ def run_core(ctx, prop, need_stats=(), need_shapes=(), sim_cfg="SIM_core", mc_qu
         with open(beh, "w") as f:
             for part in parts:
                 f.write(open(part).read())
+    # --- 2b. direction 2: sequences recorded from the real library by the harness's random driver (which owes
+    # nothing to TLC's simulation) are followed through the specification; a recorded outcome the specification
+    # does not give is a violation; the specification's behaviour for each sequence joins the replay set
+    drv_stats = None
+    if driver is not None and not ctx.get("replay"):
+        import followlib
+        feats = driver.get("features", ["apps", "storage", "custom", "gce", "extcommit"])
+        num = driver.get("num_quick", 24) if tier == "quick" else driver.get("num_thorough", 600)
+        drv = os.path.join(vlib.workdir("core"), f"driver-{prop}-{tier}-{seed}.ndjson")
+        rc, out, err = vlib.harness(["drive", "--out", drv, "--seed", seed, "--num", num, "--len", driver.get("len", 80), "--parties", driver.get("parties", 5),
+                                     "--features", ",".join(feats)], timeout=1800)
+        recs = [followlib.normalise(json.loads(l)) for l in open(drv) if l.strip()]
+        res, r = followlib.follow_batch(recs, features=feats + ["badkp"], workers=8, timeout=1500)
+        drv_stats = {"recorded_sequences": len(recs), "recorded_steps": sum(len(b["steps"]) for b in recs), "followed_steps": 0, "fully_followed": 0, "outcome_mismatches": 0}
+        with open(beh, "a") as f:
+            for i, (b, (k, model)) in enumerate(zip(recs, res)):
+                if k < 0:
+                    raise vlib.ToolError("Follow.tla failed:\n" + r.out[-3000:])
+                drv_stats["followed_steps"] += k
+                if model is None:
+                    continue   # a step the specification's generator restrictions exclude: the prefix is not replayed
+                drv_stats["fully_followed"] += 1
+                model.pop("bi", None); model["opts"] = b.get("opts")
+                for j, (ms, rs) in enumerate(zip(model["steps"], b["steps"])):
+                    if "res_impl" in rs and not followlib.res_same(ms["res"], rs["res_impl"]):
+                        drv_stats["outcome_mismatches"] += 1
+                        rp = vlib.replay_path(prop, f"recorded-{seed}-{i}")
+                        mm = dict(model); mm["steps"] = model["steps"][:j + 1]
+                        json.dump(mm, open(rp, "w"))
+                        violations.append({"key": "trace-validation", "what": f"recorded {ms['a']} by {ms['p']} returned {rs['res_impl']} in the implementation; the specification gives {ms['res']} for the recorded sequence (step {j})", "replay": rp})
+                        break
+                f.write(json.dumps(model) + "\n"); nb += 1
+        if drv_stats["followed_steps"] * 2 < drv_stats["recorded_steps"]:
+            raise vlib.ToolError(f"vacuous trace validation: {drv_stats}")
     if nb == 0:
         raise vlib.ToolError("no behaviours generated")
     shapes = behaviour_shapes(beh)
@@ -196,7 +230,7 @@ def run_core(ctx, prop, need_stats=(), need_shapes=(), sim_cfg="SIM_core", mc_qu
         "samples": [sample_behaviour(beh)],
         "exhaustive": False,
         "model_config": mc_cfg, "model_depth": mc.depth, "model_actions_never_taken": zero,
-        "behaviour_shapes": shapes, "replay_stats": summ["stats"], "replay_configs": summ["configs"],
+        "trace_validation": drv_stats, "behaviour_shapes": shapes, "replay_stats": summ["stats"], "replay_configs": summ["configs"],
         "violations_attributed_to_other_properties": [{"props": v["props"], "kind": v["kind"], "what": v["what"][:200]} for v in others[:5]],
         "invariants": invariants_note, "shapes_not_reached_this_run": vac,
         "tlc_sim_wall_s": round(gen_s, 1), "behaviours_cached": cached, "named_deviation_steps": dev_steps,
